@@ -12,7 +12,7 @@ from ..gen import progs
 PROPERTY = "C15"
 LEVEL = "exploration"
 RULE = ("case = one input text x option set (or one command line); inputs: grammar-directed programs with 0-3 token "
-        "mutations (delete/duplicate/swap/insert), extreme literals, deep nesting, DATA item combinations, invalid per-name "
+        "mutations (delete/duplicate/swap/insert), sentences derived at random from the tool's own grammar object, extreme literals, deep nesting, DATA item combinations, invalid per-name "
         "size maps, input file stems over [A-Za-z0-9_-]+; distinct = distinct text; non-trivial = all")
 ASSUMPTIONS = [
     "documented refusals: parsimonious ParseError/IncompleteParseError, compiler.ParseError, LineNumberTooLargeException, "
@@ -189,6 +189,15 @@ def run_case(case):
         if kind == "mut":
             text = gen_text(case)
             opts = option_set(random.Random(case["seed"] + 7))
+        elif kind == "peg":
+            # a sentence derived from the grammar object of the tree under observation (see gen/peggen.py)
+            from coco.b09 import compiler
+            from ..gen import peggen
+
+            g = getattr(compiler.grammar, "_real", compiler.grammar)
+            rng = random.Random(case["seed"])
+            text = peggen.PegSampler(g, rng, max_depth=rng.choice([10, 14, 18, 22, 30])).gen()
+            opts = option_set(rng) if case["seed"] % 3 == 0 else {}
         elif kind == "cfg":
             text = case["text"]
             opts = {}
@@ -241,6 +250,8 @@ def cases(tier, seed):
     n = 6000 if tier == "quick" else 1000000
     for i in range(n):
         yield {"kind": "mut", "seed": seed * 1000003 + i, "nmut": i % 4, "sample": i % 997 == 0}
+    for i in range(3000 if tier == "quick" else 300000):
+        yield {"kind": "peg", "seed": seed * 1000033 + i, "sample": i % 1499 == 0}
     for t in scaled_inputs():
         yield {"kind": "text", "text": t, "opts": {}}
     for t in EXTREME:
